@@ -26,7 +26,9 @@ import (
 	"github.com/yorkie-team/yorkie/pkg/key"
 	"github.com/yorkie-team/yorkie/server/backend/database"
 	"github.com/yorkie-team/yorkie/server/documents"
+	"github.com/yorkie-team/yorkie/pkg/document/yson"
 	"github.com/yorkie-team/yorkie/server/packs"
+	"github.com/yorkie-team/yorkie/server/revisions"
 
 	"verifmc/world"
 )
@@ -46,7 +48,7 @@ func (e Event) String() string {
 	switch e.K {
 	case "e":
 		return fmt.Sprintf("%d:%s", e.C, e.Op)
-	case "evict", "compact", "compactF":
+	case "evict", "compact", "compactF", "rev", "rst":
 		return e.K
 	default:
 		return fmt.Sprintf("%d:%s", e.C, e.K)
@@ -775,6 +777,57 @@ func (x *Exec) step(e Event) Step {
 		} else if after := rep.Doc.Marshal(); after != before || len(rep.Doc.CreateChangePack().Changes) != nb {
 			x.violate("failed-update", "failed-update:changed", fmt.Sprintf("before %s\nafter  %s", before, after))
 		}
+	case "rev":
+		// create a revision of the document as the server holds it now
+		var y string
+		err, panicked = guard(func() error {
+			di, e := x.DocInfo()
+			if e != nil {
+				return e
+			}
+			before, e := x.ServerYSON()
+			if e != nil {
+				return e
+			}
+			rev, e := revisions.Create(x.ctx, x.R.W.BE, di.RefKey(), fmt.Sprintf("rev-%d", len(x.Steps)), "")
+			if e != nil {
+				return e
+			}
+			y = rev.Snapshot
+			x.Data["revID"], x.Data["revY"] = rev.ID, y
+			if y != before {
+				x.violate("revision", "revision:content-at-creation", fmt.Sprintf("the revision does not hold the content the server had\n  server:   %s\n  revision: %s", before, y))
+			}
+			return nil
+		})
+		if err != nil && !panicked {
+			x.violate("revision", "revision:create-error:"+NormErr(err.Error()), err.Error())
+		}
+	case "rst":
+		// restore the latest revision; right afterwards the server's document
+		// holds exactly the revision's content
+		id, ok := x.Data["revID"].(types.ID)
+		if !ok {
+			st.NoEffect = true
+			break
+		}
+		err, panicked = guard(func() error {
+			if e := revisions.Restore(x.ctx, x.R.W.BE, x.Project, id); e != nil {
+				return e
+			}
+			x.R.W.WaitBackground()
+			after, e := x.ServerYSON()
+			if e != nil {
+				return e
+			}
+			if want := x.Data["revY"].(string); after != want {
+				x.violate("revision", "revision:content-after-restore", fmt.Sprintf("after the restore the server's document differs from the revision\n  revision: %s\n  server:   %s", want, after))
+			}
+			return nil
+		})
+		if err != nil && !panicked {
+			x.violate("revision", "revision:restore-error:"+NormErr(err.Error()), err.Error())
+		}
 	case "evict":
 		x.R.W.PurgeSnapshotCache()
 	case "compact", "compactF":
@@ -963,6 +1016,24 @@ func (x *Exec) ServerMarshal(seq int64) (string, error) {
 		return nil
 	})
 	return out, err
+}
+
+// ServerYSON renders the server's rebuild of the document at the head as YSON
+// text (what revisions and compaction store).
+func (x *Exec) ServerYSON() (string, error) {
+	di, err := x.DocInfo()
+	if err != nil {
+		return "", err
+	}
+	d, err := packs.BuildInternalDocForServerSeq(x.ctx, x.R.W.BE, di, di.ServerSeq)
+	if err != nil {
+		return "", err
+	}
+	y, err := yson.FromCRDT(d.RootObject())
+	if err != nil {
+		return "", err
+	}
+	return y.(yson.Object).Marshal()
 }
 
 // Quiesce runs the quiescent closure: every attached replica syncs round-robin
